@@ -29,6 +29,7 @@ CONSTANTS
   Sentinel(_),     \* Sentinel(p): the unprovided-evaluator value (-1.33)
   NoSuchParam(_),  \* NoSuchParam(p): masa_get_param of an unknown name (-20)
   One(_),          \* One(p): the number 1 (what the self-test fixture's init_var stores)
+  DispAccept(_, _, _),  \* DispAccept(p, v, s): is s what masa_display_param prints for the stored value v (16 digits)?
   InitDflt,        \* initial knowledge of default values (see dflt)
   UseMemo,         \* BOOLEAN: record evaluations in memo (history variable)
   \* value oracle: EvalAccept(p, sol, par, vec, fn, sig, args, cb, ret) -- is ret an acceptable result
@@ -276,7 +277,10 @@ DisplayParam(p, api, o) ==
      /\ Len(o.out) = Cardinality(Pars(Target(p).sol))
      /\ {o.out[i].k : i \in 1..Len(o.out)} = Pars(Target(p).sol)
      /\ \A i \in 1..Len(o.out) :
-          (o.out[i].v = "Uninitialized") <=> (ParVal(p, Target(p), o.out[i].k) = Marker(p))
+          LET pv == ParVal(p, Target(p), o.out[i].k) IN
+          /\ (o.out[i].v = "Uninitialized") <=> (pv = Marker(p))
+          \* the printed number is the stored value (an unobserved default is not judged)
+          /\ IF o.out[i].v = "Uninitialized" \/ pv = Unk THEN TRUE ELSE DispAccept(p, pv, o.out[i].v)
      /\ UNCHANGED <<reg, sel, live, status, dflt, memo>>
 
 \* masa_display_vec / masa_display_array: one line per vector parameter with its length
